@@ -3,6 +3,7 @@ package sim
 import (
 	"encoding/hex"
 	"fmt"
+	ethcrypto "github.com/ethereum/go-ethereum/crypto"
 	"math/big"
 	"strings"
 
@@ -303,16 +304,20 @@ func (e BridgeEngine) genKind(r *Run, kind string) (Step, bool) {
 		if (r.Prop == "C04" || r.Prop == "C05" || r.Prop == "C06") && r.Pct(40) {
 			to = RecorderAddr(w)
 		}
-		if r.Prop == "C01" && r.Pct(50) {
+		fwd := RecorderAddr(w) // C01 worlds: the forwarder is the first contract user/0 created
+		if r.Prop == "C04" {
+			fwd = ethcrypto.CreateAddress(w.Key("user", 0).Hex(), 1)
+		}
+		if (r.Prop == "C01" && r.Pct(50)) || (r.Prop == "C04" && r.Pct(12)) {
 			// re-entrancy: the call goes (memo = send-call-to) to the forwarder contract with call data
 			// executeClaim(chain, <the nonce this very event will get>)
 			act := PAct{K: "pre", T: "crosschain", M: "executeClaim", Args: []string{c.Name, fmt.Sprint(c.Ext.EventNonce + 1)}}
 			if _, data, err := resolveAct(&act, func(s string) string { return s }); err == nil {
 				r.Probe("reentrant-bridge-call-emitted")
 				// arm the forwarder (1 unit of FX) first; the event follows as the next step
-				st.Setup = append(st.Setup, Step{Kind: "ext", A: A("chain", c.Name, "op", "bridge_call", "symbols", strings.Join(syms, ","), "amounts", strings.Join(amts, ","), "user", r.Rng.IntN(st.NUsers), "to", RecorderAddr(w).Hex(),
+				st.Setup = append(st.Setup, Step{Kind: "ext", A: A("chain", c.Name, "op", "bridge_call", "symbols", strings.Join(syms, ","), "amounts", strings.Join(amts, ","), "user", r.Rng.IntN(st.NUsers), "to", fwd.Hex(),
 					"data", hex.EncodeToString(data), "memo", "0000000000000000000000000000000000000000000000000000000000010000", "value", 0)})
-				return Step{Kind: "block", DtMs: e.dt(r), N: 1, Txs: []Tx{{K: "eth_call", S: KeyName("user", r.Rng.IntN(st.NUsers)), A: A("to", RecorderAddr(w).Hex(), "data", "", "value", "1"), Gas: 200_000}}}, true
+				return Step{Kind: "block", DtMs: e.dt(r), N: 1, Txs: []Tx{{K: "eth_call", S: KeyName("user", r.Rng.IntN(st.NUsers)), A: A("to", fwd.Hex(), "data", "", "value", "1"), Gas: 200_000}}}, true
 			}
 		}
 		return Step{Kind: "ext", A: A("chain", c.Name, "op", "bridge_call", "symbols", strings.Join(syms, ","), "amounts", strings.Join(amts, ","), "user", r.Rng.IntN(st.NUsers), "to", to.Hex(),
